@@ -5,6 +5,7 @@ from ..expr import ExprBuilder, show, walk, root_of, stores, to_poly, Poly, cano
 from ..flow import condition_flow
 from .. import paths
 from . import common as cm
+from . import c14_energy
 
 PF = "vocoder::cepstrum::MelCepstrum::postfilter_mcp"
 PFL = "vocoder::lsp::LineSpectralPairs::postfilter_lsp"
@@ -56,6 +57,7 @@ def run(ctx):
     ctx.rule("C14-R3", "plumbing: condition.beta -> the Vocoder::new parameter stored in field beta -> argument of postfilter_mcp / postfilter_lsp; beta reaches nothing but the vocoder")
     p = cm.program(ctx)
     cg = cm.callgraph(p)
+    c14_energy.check(ctx, p)
     noop_guards(ctx, p, PF)
     noop_guards(ctx, p, PFL)
 
@@ -78,6 +80,19 @@ def run(ctx):
         dom = b.dominators()
         coeff_stores = []
         for bb, i, st, tgt, root, chain, val in stores(b, eb):
+            # element-wise form: for b in coefficients.iter_mut().skip(2) { *b = f(*b) }
+            if tgt[0] == "field" and tgt[2] == "0" and tgt[1][0] == "variant" and tgt[1][1][0] == "call" and tgt[1][1][1] == "<std::iter::Skip<I> as std::iter::Iterator>::next":
+                sk = tgt[1][1][2][0]
+                if sk[0] == "call" and sk[1].endswith("Iterator::skip") and "mc2b(self)" in show(sk[2][0]):
+                    pol = to_poly(val, lambda e, tgt=tgt: ("OLD",) if e == tgt else None)
+                    coeff_stores.append((bb, ("skip",)))
+                    seen["_bk_bb"] = bb
+                    if sk[2][1][0] == "c" and sk[2][1][1] == 2 and pol == Poly.atom(("OLD",)) * (Poly.const(1) + beta):
+                        seen["bk"] = True
+                        ctx.ok("C14-R2", "b_k <- (1+beta)*b_k for every element after the first two (iter_mut().skip(2))", cm.loc_of(st["span"]))
+                    else:
+                        ctx.fail("C14-R2", PF, "b_k update", "element-wise update %s over skip(%s), expected (1+beta)*b_k over skip(2)" % (pol, show(sk[2][1])), cm.loc_of(st["span"]))
+                    continue
             if not (root[0] in ("var", "call") and chain == ["[]"]):
                 continue
             idx = tgt[2]
@@ -93,6 +108,7 @@ def run(ctx):
             coeff_stores.append((bb, idx))
             if idx[0] == "c" and idx[1] == 1:
                 want = old - beta * alpha * Poly.atom(("B", 2))
+                seen["_b1_bb"] = bb
                 if pol == want:
                     seen["b1"] = True
                     ctx.ok("C14-R2", "b1 <- b1 - beta*alpha*b2", cm.loc_of(st["span"]))
@@ -124,11 +140,18 @@ def run(ctx):
                 from ..ledger import _range_loop_var
                 r = _range_loop_var(b, eb, idx)
                 want = old * (Poly.const(1) + beta)
+                seen["_bk_bb"] = bb
                 if r and r[0][0] == "c" and r[0][1] == 2 and r[1][0] == "len" and show(r[1][1]) == "self" and not r[2] and pol == want:
                     seen["bk"] = True
                     ctx.ok("C14-R2", "b_k <- (1+beta)*b_k for k in 2..len", cm.loc_of(st["span"]))
                 else:
                     ctx.fail("C14-R2", PF, "b_k update", "b[%s] <- %s over range %s, expected (1+beta)*b_k for k in 2..len" % (show(idx)[-20:], pol, [show(x) for x in r[:2]] if r else None), cm.loc_of(st["span"]))
+        if "_b1_bb" in seen and "_bk_bb" in seen:
+            b1b, bkb = seen["_b1_bb"], seen["_bk_bb"]
+            if b1b != bkb and b.can_reach(b1b, bkb) and not b.can_reach(bkb, b1b):
+                ctx.ok("C14-R2", "b1 is compensated with the unscaled b2 (the b1 update precedes the scaling of b_k, k >= 2): c1 = b1 + alpha*b2 is unchanged", b.loc())
+            else:
+                ctx.fail("C14-R2", PF, "b1 after scaling", "the b1 update does not precede the scaling of b2..: it reads an already scaled b2, so order 1 of the cepstrum changes by -alpha*beta^2*b2", b.loc())
         for k in ("b1", "bk", "b0"):
             if k not in seen:
                 ctx.fail("C14-R2", PF, "missing " + k, "the %s update was not found" % k, b.loc())
@@ -147,7 +170,7 @@ def run(ctx):
                 b0bb = seen.get("_b0_bb")
                 shape = [sb for sb, _ in coeff_stores if sb != b0bb]
                 before = all(e1b in dom.get(sb, ()) and sb != e1b for sb in shape)
-                after = all(b.can_reach(sb, e2b) and not b.can_reach(e2b, sb) for sb in shape)
+                after = all(sb == e2b or (b.can_reach(sb, e2b) and not b.can_reach(e2b, sb)) for sb in shape)  # same block: a store precedes the terminator call
                 b0_after = b0bb is not None and e2b in dom.get(b0bb, ())
                 args_ok = all(show(eb.at(bb_).op(t_["args"][1])) == "self.alpha" for bb_, t_ in e_calls)
                 ratio_ok = False
